@@ -481,6 +481,11 @@ var solvers = []solverSpec{
 	{"cvc5-1.0", func(f string, t int) []string {
 		return []string{"cvc5", "--lang=smt2", fmt.Sprintf("--tlimit=%d", t*1000), f}
 	}},
+	// same solver, E-matching only (no conflict-based instantiation): decides some quantified invariant
+	// steps in a fraction of the time of the default strategy
+	{"cvc5-1.0-ematch", func(f string, t int) []string {
+		return []string{"cvc5", "--lang=smt2", "--no-cbqi", fmt.Sprintf("--tlimit=%d", t*1000), f}
+	}},
 }
 
 var procSem = make(chan struct{}, 16)
